@@ -1,2 +1,6 @@
 import CkptGen.Prelude
 import CkptGen.Src
+import CkptGen.RefineNAdv
+import CkptGen.RefineArgmin
+import CkptGen.RefineExtra
+import CkptGen.RefineMixed
